@@ -80,7 +80,7 @@ PROPS = {
     },
     "C12": {
         "suites": ["cluster", "fd"],
-        "level_text": "C12_evalLiveness_inv (live/dead disjoint, local node never dead), C12_partition_after_eval, C12_self_always_live, C12_self_never_removed, C12_quarantine_digest / C12_quarantine_delta / C12_scheduled_iff, C12_removed_at_grace, C12_remove_remembers_heartbeat, C12_recreate_guard, C12_delta_never_creates, C12_catchup_never_recreates, C12_recreated_is_dead; tied by cluster schedules with clock advances around grace/2 and grace, survivors that keep advertising the dead member, node GC and re-creation.",
+        "level_text": "C12_evalLiveness_inv (live/dead disjoint, local node never dead), C12_partition_after_eval, C12_self_always_live, C12_self_never_removed, C12_quarantine_digest / C12_quarantine_delta / C12_scheduled_iff, C12_removed_at_grace, C12_remove_remembers_heartbeat, C12_recreate_guard, C12_delta_never_creates, C12_catchup_never_recreates, C12_recreated_is_dead, C12_time_of_death_stable (the time of death is set once; stale heartbeats cannot restart the grace period); tied by cluster schedules with clock advances around grace/2 and grace, survivors that keep advertising the dead member, node GC and re-creation.",
         "level_note": _COMMON_NOTE + "PARTIAL: `dead_node_grace_period.div_f32(2.0)` is modelled as exact halving (generated grace periods are exactly halvable in f32); the LRU memory of 500 removed members is a bounded list.",
         "assumptions": ["grace periods exactly halvable in f32"],
         "partial": "f32 half-grace boundary modelled exactly",
@@ -117,7 +117,7 @@ PROPS = {
     },
     "C18": {
         "suites": ["catchup"],
-        "level_text": "C18_no_panic_monotone (every existing copy x every supplied state: succeeds; copy untouched or frontier strictly raised), C18_not_live (live/dead untouched, at most an empty window created), C18_no_recreate, C18_keys_subset; tied to lib.rs by an exhaustive small-scope sweep of copy shapes (absent, remembered-as-collected, empty, mid-reset, ahead, behind) x supplied (max, gc) x random key sets.",
+        "level_text": "C18_no_panic_monotone (every existing copy x every supplied state: succeeds; copy untouched or frontier strictly raised), C18_not_live (live/dead untouched, at most an empty window created), C18_no_recreate, C18_keys_subset, C18_supplied_kept; tied to lib.rs by an exhaustive small-scope sweep of copy shapes (absent, remembered-as-collected, empty, mid-reset, ahead, behind) x supplied (max, gc) x random key sets.",
         "level_note": _COMMON_NOTE,
         "assumptions": [],
     },
